@@ -51,7 +51,7 @@ func mkCDImage(root string, im cdImg, seed byte) {
 func TestC17(t *testing.T) {
 	r := NewReporter(t)
 	defer r.Done()
-	r.Rule("7 raw sector sizes x {ISO9660, PLAYSTATION, no} signature x image sizes around the 2 MiB / 848 MiB detection window x (start,count) incl. count 0, start != count, ranges crossing EOF and start sectors at byte offsets around 2^32 and up to 2^32-1 sectors, incl. a sparse image of 4 GiB + 3 MiB; encrypted images whose plaintext is a CD image (sector size recognised through the decrypting view); two-image histories on one connection and CLOSEFILE; transfer buffer sizes {1,3,512,1000,1500,2047,2048,2049,4096,unpooled}; distinct by (image(s), request sequence)")
+	r.Rule("7 raw sector sizes x {ISO9660, PLAYSTATION, no} signature x image sizes around the 2 MiB / 848 MiB detection window x (start,count) incl. count 0, start != count, ranges crossing EOF and start sectors at byte offsets around 2^32 and up to 2^32-1 sectors, incl. a sparse image of 4 GiB + 3 MiB; encrypted images whose plaintext is a CD image (sector size recognised through the decrypting view); every sector of each 2 MiB image one by one in a single session and every (start,count) around its last sectors; all histories of <= 2 (thorough 4) requests over a 10-request alphabet between the open and a sector read; two-image histories on one connection and CLOSEFILE; transfer buffer sizes {1,3,512,1000,1500,2047,2048,2049,4096,unpooled}; distinct by (image(s), request sequence)")
 	w := newWorld(t, "srv/root")
 	defer w.Cleanup()
 	sizes := []int64{0x200000 - 1, 0x200000, 3 << 20, 0x35000000, 0x35000000 + 1}
@@ -146,6 +146,43 @@ func TestC17(t *testing.T) {
 					r.Violation("C17:bufsize:"+res.WhySig, sprintf("%s with transfer buffer size %d: %s", im.name, bs, res.Why), map[string]any{"image": im.name, "buffer_size": bs, "requests": reqs, "steps": res.Steps})
 				}
 			}
+		}
+		// every sector of the image one by one in a single session, and every (start, count) around the last sectors
+		if im.size == 0x200000 && (im.sig == "iso" || r.Thorough()) {
+			reqs := []Req{mkReq(opOpenFile, "/"+im.name)}
+			for s := uint32(0); s < nsect; s++ {
+				reqs = append(reqs, cdReq(s, 1))
+			}
+			run(im.name+" every sector", reqs)
+			for st := nsect - 6; st <= nsect+1; st++ {
+				for cnt := uint32(0); cnt <= 8; cnt++ {
+					run(im.name, []Req{mkReq(opOpenFile, "/"+im.name), cdReq(st, cnt), cdReq(0, 1)})
+				}
+			}
+		}
+		// all request histories of length <= 2 (thorough: 4) over a 10-request alphabet after the open: the detected
+		// sector size is a property of the open file, whatever was asked before
+		if im.size == 0x200000 && im.sig == "iso" {
+			w.File("other.bin", 5000, 77)
+			alpha := []Req{mkReq(opOpenFile, "/"+im.name), mkReq(opOpenFile, "/other.bin"), mkReq(opOpenFile, "/CLOSEFILE"), mkReq(opOpenFile, "/nope"),
+				cdReq(0, 1), cdReq(5, 2), cdReq(nsect-1, 1), cdReq(nsect-1, 2), rdReq(7, 100), rdcReq(0, 2048)}
+			depth := 2
+			if r.Thorough() {
+				depth = 4
+			}
+			var rec func(h []Req)
+			rec = func(h []Req) {
+				if len(h) > 0 {
+					run(im.name+" history", append(append([]Req{mkReq(opOpenFile, "/"+im.name)}, h...), cdReq(3, 2)))
+				}
+				if len(h) == depth {
+					return
+				}
+				for _, a := range alpha {
+					rec(append(append([]Req{}, h...), a))
+				}
+			}
+			rec(nil)
 		}
 		// re-opening images of a different sector size on one connection
 		for j, other := range imgs {
